@@ -8,7 +8,7 @@
      TABLE = ((#KEY #uncompressed) ...), KEY = codec byte followed by the compressed bytes, instantiates `decompress` (phase 2; trusted: cramjam)
      STRICT = 1: a bit-packed run must be present in full; 0: only the bytes of the values needed. *)
 From Coq Require Import NArith ZArith List String Ascii Bool.
-From Pq Require Import Base.Bytes Base.ListX Extract.Sx Thrift.Compact Codec.Hybrid Format.Phys Format.Meta Format.Page Format.File Format.Enc Impl.RPages Impl.RChunk Impl.WPagesFmt Impl.WLevels Impl.WChunk Impl.RSelf Impl.RCat Impl.RConvert.
+From Pq Require Import Base.Bytes Base.ListX Extract.Sx Thrift.Compact Codec.Hybrid Format.Phys Format.Meta Format.Page Format.File Format.Enc Format.EncKV Impl.RPages Impl.RChunk Impl.WPagesFmt Impl.WLevels Impl.WChunk Impl.RSelf Impl.RCat Impl.RConvert.
 From Pq Require Extract.Cmd_Thrift.
 Import ListNotations.
 Open Scope string_scope.
@@ -171,6 +171,22 @@ Definition h_fmt_encode (a : list sx) : sx :=
   | [f; t] => match as_lfile f, as_table t with
               | Some f, Some t => SL [S_ "ok"; SB (enc_file (table_compress t) f)]
               | _, _ => err "args" end
+  | _ => err "arity"
+  end.
+
+(* (fmt_encode_kv LFILE TABLE ((#key (#value)?) ...)) -> (ok #file): the same file with FileMetaData.key_value_metadata (Format/EncKV.v) *)
+Definition as_kv (s : sx) : option (bytes * option bytes) :=
+  match s with
+  | SL [SB k; SL []] => Some (k, None)
+  | SL [SB k; SL [SB v]] => Some (k, Some v)
+  | _ => None
+  end.
+
+Definition h_fmt_encode_kv (a : list sx) : sx :=
+  match a with
+  | [f; t; kvs] => match as_lfile f, as_table t, Sx.as_list_of as_kv kvs with
+                   | Some f, Some t, Some kvs => SL [S_ "ok"; SB (EncKV.enc_file_kv (table_compress t) kvs f)]
+                   | _, _, _ => err "args" end
   | _ => err "arity"
   end.
 
@@ -367,4 +383,4 @@ Definition h_fmt_convert (a : list sx) : sx :=
 
 Definition table : list (string * handler) :=
   [("fmt_convert", h_fmt_convert); ("fmt_rd_chunk_cat", h_fmt_rd_chunk_cat); ("fmt_w_chunk", h_fmt_w_chunk); ("fmt_rd_chunk_sm", h_fmt_rd_chunk_sm); ("fmt_fp_page", h_fmt_fp_page); ("fmt_rd_chunk", h_fmt_rd_chunk); ("fmt_rd_data_page", h_fmt_rd_data_page); ("fmt_pages", h_fmt_pages); ("fmt_validate", h_fmt_validate); ("fmt_decode", h_fmt_decode);
-   ("fmt_payloads", h_fmt_payloads); ("fmt_encode", h_fmt_encode); ("fmt_table", h_fmt_table)].
+   ("fmt_payloads", h_fmt_payloads); ("fmt_encode", h_fmt_encode); ("fmt_encode_kv", h_fmt_encode_kv); ("fmt_table", h_fmt_table)].
